@@ -59,7 +59,12 @@ fn format_single_line(expr: &SpannedExpr) -> String {
             } else {
                 format!("({})", args_str.join(", "))
             };
-            format!("{} => {}", args_part, format_single_line(body))
+            let body_str = format_single_line(body);
+            if lambda_body_needs_parens(body) {
+                format!("{} => ({})", args_part, body_str)
+            } else {
+                format!("{} => {}", args_part, body_str)
+            }
         }
         Expr::Call { func, args } => {
             let func_str = if needs_parens_in_postfix(func) {
@@ -285,6 +290,23 @@ fn format_lambda(args: &[LambdaArg], body: &SpannedExpr, max_cols: usize, indent
     if let Expr::DoBlock { .. } = &body.node {
         let body_formatted = format_expr_impl(body, max_cols, indent);
         return format!("{} {}", args_part, body_formatted);
+    }
+
+    // A body rooted at via / into / where must keep its parentheses: the grammar does not admit
+    // these operators at the top level of a lambda body
+    if lambda_body_needs_parens(body) {
+        let single_line = format!("{} ({})", args_part, format_single_line(body));
+        if !single_line.contains('\n') && indent + single_line.len() <= max_cols {
+            return single_line;
+        }
+        let body_indent = indent + INDENT_SIZE;
+        return format!(
+            "{} (\n{}{}\n{})",
+            args_part,
+            make_indent(body_indent),
+            format_expr_impl(body, max_cols, body_indent),
+            make_indent(indent)
+        );
     }
 
     // Try single-line first for other body types
@@ -566,6 +588,17 @@ fn format_do_block_multiline(
     result.push('}');
 
     result
+}
+
+/// via / into / where are not admitted at the top level of a lambda body
+fn lambda_body_needs_parens(body: &SpannedExpr) -> bool {
+    matches!(
+        &body.node,
+        Expr::BinaryOp {
+            op: BinaryOp::Via | BinaryOp::Into | BinaryOp::Where,
+            ..
+        }
+    )
 }
 
 /// Convert lambda argument to string
